@@ -25,6 +25,11 @@ PROP = "C02"
 def run_job(job, w):
     from rt import harness, wfgen, oracles
     harness.setup_process(job["K"])
+    ty = None
+    if job.get("targeted_yield", True):
+        # sleeps at line boundaries inside the snapshot hand-off functions (engine.emit_now / drain, ComponentState's
+        # update and filter closures, finish): widens the windows in which notifications can overtake each other
+        ty = harness.install_targeted_yield(p=0.3, max_sleep=0.004, seed=job.get("ty_seed", 0))
     for sc in job["scenarios"]:
         wf, script = sc["wf"], sc["script"]
         nodes = wfgen.expand(wf)
@@ -109,6 +114,15 @@ def confirm_stuck_at_k1(scenario, attempts=2, cap_s=300.0):
         if "watchdog False" in out:
             return False
     return None
+
+
+    if ty:
+        w.count("targeted_yield_lines", ty["lines"])
+        w.count("targeted_yields_injected", ty["yields"])
+
+
+def _run_job_outer(job, w):
+    run_job(job, w)
 
 
 if "--worker" in sys.argv:
@@ -241,7 +255,8 @@ def main():
                             "jitter_max": rng.choice([0.005, 0.02, 0.05]), "storm": rng.random() < 0.7})
         rng.shuffle(scs)
         per_child = 12
-        jobs = [{"K": K, "scenarios": scs[i:i + per_child]} for i in range(0, len(scs), per_child)]
+        jobs = [{"K": K, "scenarios": scs[i:i + per_child], "targeted_yield": (i // per_child) % 4 != 3,
+                 "ty_seed": rnd * 1000 + i} for i in range(0, len(scs), per_child)]
         res = vlib.fanout("checks.C02", jobs, c, timeout=1200)
         for r in res:
             all_records.extend(r.get("records", []))
